@@ -950,6 +950,13 @@ class _Simu(_IObserver, _params.Updatable, ABC):
         """simulation's dimension"""
         return self.__dim
 
+    def __Get_meshes_folder(self) -> str:
+        """Folder the mesh paths of `Save` are relative to (the last `Save` folder, whatever `self.folder` became since)."""
+        try:
+            return self.__meshesFolder
+        except AttributeError:
+            return self.folder
+
     def __Update_mesh(self, index: int) -> None:
         """Updates the mesh for the specified iteration.
 
@@ -962,7 +969,7 @@ class _Simu(_IObserver, _params.Updatable, ABC):
         mesh = self.__listMesh[index]
 
         if isinstance(mesh, str):
-            mesh = Load_Mesh(Folder.Join(self.folder, mesh))
+            mesh = Load_Mesh(Folder.Join(self.__Get_meshes_folder(), mesh))
 
         self.__mesh = mesh
 
@@ -3180,6 +3187,9 @@ class _Simu(_IObserver, _params.Updatable, ABC):
             Folder.Join(folder, f"{filename}{suffix}.pickle", mkdir=True)
         path_simu = Folder.Join(folder, f"{filename}{suffix}.pickle", mkdir=True)
 
+        # meshes already written by a previous Save are stored as paths relative to that Save's folder
+        previousMeshesFolder = self.__Get_meshes_folder()
+
         # The folder setter handles flushing any pending in-memory iteration
         # dicts to disk when transitioning from `folder == ""` to set.
         self.folder = folder
@@ -3189,10 +3199,11 @@ class _Simu(_IObserver, _params.Updatable, ABC):
         list_mesh = []
         for i, mesh in enumerate(self.__listMesh):
             if isinstance(mesh, str):
-                mesh = Load_Mesh(Folder.Join(folder, mesh))
+                mesh = Load_Mesh(Folder.Join(previousMeshesFolder, mesh))
             path = mesh.Save(folder_meshes, f"mesh{i}")
             list_mesh.append(Folder.os.path.relpath(path, folder))
         self.__listMesh = list_mesh
+        self.__meshesFolder = folder
 
         # Save simulation
         with open(path_simu, "wb") as file:
